@@ -173,3 +173,11 @@ func Show(key, val string) { Info = append(Info, key+"="+strconv.Quote(val)) }
 
 // Watch is a debugging aid (engine prints the value under a counterexample).
 func Watch(name string, v any) {}
+
+// ChoiceAt returns opts[i]; under the engine the result stays tied to the
+// selector i, so comparisons with constants are single atoms.
+func ChoiceAt(i int, opts ...string) string { return opts[i] }
+
+// LiftCall asks the engine to evaluate a pure one-argument function once per
+// possible value of a finite-valued argument instead of forking inside it.
+func LiftCall(fn string) {}
